@@ -41,6 +41,17 @@ class VConfig:
             self.lo = rng.uniform(-10, 10, size=ndim)
         self.frames = []
         layout = recipe["layout"]
+        # per-frame boxes: constant, or breathing / drifting as in a constant-pressure run
+        self.Ls, self.los = [], []
+        vary = recipe.get("boxes", "const") == "vary"
+        for _t in range(T):
+            if vary and _t > 0:
+                Lt = np.round(self.L * (1.0 + rng.uniform(-0.12, 0.12, size=ndim)), 3)
+                lot = -Lt / 2 if ok == "centred" else np.round(self.lo + rng.uniform(-0.5, 0.5, size=ndim), 3)
+            else:
+                Lt, lot = self.L.copy(), np.array(self.lo, dtype=float)
+            self.Ls.append(Lt)
+            self.los.append(lot)
         for _t in range(T):
             if layout == "lattice":
                 m = int(np.ceil(N ** (1.0 / ndim)))
@@ -50,20 +61,20 @@ class VConfig:
                 s -= np.floor(s)
             else:
                 s = rng.random((N, ndim))
-            self.frames.append(self.lo + s * self.L)
+            self.frames.append(self.los[_t] + s * self.Ls[_t])
         self.ref = None
 
-    def bounds(self):
-        return np.column_stack((self.lo, self.lo + self.L))
+    def bounds(self, t=0):
+        return np.column_stack((self.los[t], self.los[t] + self.Ls[t]))
 
-    def _tess(self, pos, shift):
+    def _tess(self, pos, shift, L):
         import freud
         pts = pos - shift
         if self.ndim == 2:
-            box = freud.box.Box(Lx=self.L[0], Ly=self.L[1], is2D=True)
+            box = freud.box.Box(Lx=L[0], Ly=L[1], is2D=True)
             pts = np.hstack((pts, np.zeros((self.N, 1))))
         else:
-            box = freud.box.Box(Lx=self.L[0], Ly=self.L[1], Lz=self.L[2])
+            box = freud.box.Box(Lx=L[0], Ly=L[1], Lz=L[2])
         v = freud.locality.Voronoi()
         v.compute((box, pts))
         nl = np.array(v.nlist)
@@ -88,14 +99,15 @@ class VConfig:
             return self.ref
         out = []
         rng = np.random.default_rng(self.recipe["subseed"] ^ 0x5F5F)
-        for pos in self.frames:
-            centre = self.lo + self.L / 2
-            a = self._tess(pos, centre)
+        for t, pos in enumerate(self.frames):
+            L = self.Ls[t]
+            centre = self.los[t] + L / 2
+            a = self._tess(pos, centre, L)
             robust = a[2] >= 1e-3
-            for shift in (np.zeros(self.ndim), centre + rng.uniform(-0.5, 0.5, size=self.ndim) * self.L):
+            for shift in (np.zeros(self.ndim), centre + rng.uniform(-0.5, 0.5, size=self.ndim) * L):
                 if not robust:
                     break
-                b = self._tess(pos, shift)
+                b = self._tess(pos, shift, L)
                 robust = set(a[0]) == set(b[0]) and all(len(a[0][k]) == len(b[0][k]) for k in a[0]) \
                     and all(abs(x - y) <= 1e-5 + 1e-5 * abs(x) for k in a[0] for x, y in zip(a[0][k], b[0][k])) \
                     and float(np.max(np.abs(a[1] - b[1]))) <= 1e-5 * (1 + float(np.max(a[1])))
@@ -116,8 +128,8 @@ class VConfig:
         for t in idx:
             snaps.append(SingleSnapshot(
                 timestep=100 * t, nparticle=self.N, particle_type=np.ones(self.N, dtype=int),
-                positions=self.frames[t].copy(), boxlength=self.L.copy(), boxbounds=self.bounds(),
-                realbounds=None, hmatrix=np.diag(self.L)))
+                positions=self.frames[t].copy(), boxlength=self.Ls[t].copy(), boxbounds=self.bounds(t),
+                realbounds=None, hmatrix=np.diag(self.Ls[t])))
         return Snapshots(nsnapshots=len(snaps), snapshots=snaps)
 
 
@@ -253,7 +265,8 @@ class World(WorldBase):
             N = rng.randint(4, 14 if small else sw["maxN"])
             rec = {"ndim": ndim, "N": N, "T": rng.randint(1, sw["maxT"]),
                    "origin": rng.choice(["any", "any", "centred", "zero", "int-sum-zero"]),
-                   "layout": rng.choice(["random", "lattice"]), "subseed": rng.randrange(1 << 40)}
+                   "layout": rng.choice(["random", "lattice"]), "boxes": rng.choice(["const", "const", "vary"]),
+                   "subseed": rng.randrange(1 << 40)}
             if VConfig(rec).general_position():
                 return {"op": "mk_config", "name": f"c{self.next_c}", "recipe": rec}
             self.ctx.probe("regen_general_position")
@@ -344,9 +357,9 @@ class World(WorldBase):
         if not (len(fn) == len(fw) == len(fo) == cfg.T):
             raise Violation("C20/file-frames:produce", f"frames: neighbor {len(fn)}, weights {len(fw)}, overall {len(fo)}, trajectory {cfg.T}")
         ref = cfg.reference()
-        vol_box = float(np.prod(cfg.L))
         out_n, out_w = [], []
         for t in range(cfg.T):
+            vol_box = float(np.prod(cfg.Ls[t]))
             (hn, rn), (hw, rw), ro = fn[t], fw[t], fo[t]
             if "neighborlist" not in hn or "neighborlist" in hw:
                 raise Violation("C20/file-layout:produce", f"frame {t}: headers {hn} / {hw}")
